@@ -133,10 +133,14 @@ func FromJSON(b []byte) (*Result, error) {
 		return nil, fmt.Errorf("parse: expected one modifier, received %d: %s", len(msg), ks)
 	}
 
-	parseMu.RLock()
-	defer parseMu.RUnlock()
 	for k, m := range msg {
+		// Only the lookup needs the registry lock. The parse functions of groups
+		// and filters call FromJSON again for their children; holding the read
+		// lock across that call takes it recursively, which deadlocks as soon as
+		// a Register call queues up between the two acquisitions.
+		parseMu.RLock()
 		parseFunc, ok := parseFuncs[k]
+		parseMu.RUnlock()
 		if !ok {
 			return nil, ErrUnknownModifier{name: k}
 		}
